@@ -47,6 +47,14 @@ structure CertRef where
   name : String
   deriving Repr
 
+/-- one `matchExpressions` requirement of a namespace label selector -/
+structure SelReq where
+  key : String
+  /-- In | NotIn | Exists | DoesNotExist -/
+  op : String
+  values : List String
+  deriving Repr
+
 structure Listener where
   name : String
   port : Nat
@@ -63,6 +71,9 @@ structure Listener where
   selExprs : Nat
   hasKinds : Bool
   kinds : List KindRef
+  /-- the `matchExpressions` of the selector, when the flattening supplies them (`selExprs` is their number; decoders that
+  do not supply them leave `[]`, and a selector with expressions is then read as matching no namespace, as before) -/
+  selReqs : List SelReq := []
   deriving Repr
 
 structure Gateway where
@@ -376,12 +387,23 @@ def dupParents (r : Route) (s : Scenario) : Bool :=
     | none => none
   ts.length != ts.eraseDups.length
 
+/-- a label-selector requirement against the labels of a namespace (k8s.io/apimachinery labels.Requirement.Matches):
+`In`: the key is present with one of the values; `NotIn`: absent, or present with another value; `Exists` /
+`DoesNotExist`: presence of the key -/
+def reqSatisfied (labels : List (String × String)) (r : SelReq) : Bool :=
+  match labels.lookup r.key with
+  | some v => if r.op == "In" then r.values.contains v else if r.op == "NotIn" then !r.values.contains v else r.op == "Exists"
+  | none => r.op == "NotIn" || r.op == "DoesNotExist"
+
+/-- allowedRoutes.namespaces: All; Same (the default); Selector — a metav1.LabelSelector: `matchLabels` AND every
+`matchExpressions` requirement must hold for the labels of the Route's namespace; the EMPTY selector `{}` has no
+requirement and therefore selects every (known) namespace; a missing selector selects none -/
 def nsAllowed (s : Scenario) (g : Gateway) (l : Listener) (routeNs : String) : Bool :=
   if l.nsFrom == "All" then true
   else if l.nsFrom == "Selector" then
-    l.hasSel && l.selExprs == 0 &&
+    l.hasSel && l.selExprs == l.selReqs.length &&
     match s.nss.find? (·.name == routeNs) with
-    | some n => l.selMatch.all fun kv => n.labels.contains kv
+    | some n => (l.selMatch.all fun kv => n.labels.contains kv) && l.selReqs.all (reqSatisfied n.labels)
     | none => false
   else routeNs == g.ns      -- Same (the default)
 
